@@ -13,17 +13,17 @@ import (
 // waitForRule (R-C08-WAITFOR): the static wait-for structure between the API callers and the two
 // consumer goroutines. "Every call returns in bounded time" has a structural necessary condition:
 //
-//   (1) a consumer goroutine (the applier Cache.processItems, the policy's processItems) blocks on
-//       nothing but its own select and the `done` answer of its stop arm - neither directly nor in
-//       any module function it calls synchronously (callbacks bound to module closures included).
-//       If it blocked on a channel that only itself serves (setBuf, stop/done of the same cache) or
-//       on a timer, every producer that waits for it (Del, Wait, Clear, Push's consumer side) would
-//       wait with it.
-//   (2) every blocking operation reachable from a listed API method is one of a frozen table of
-//       (method, channel, direction) entries, and for each entry the counterpart operation exists in
-//       the consumer's select (or in Clear's drain) - a new blocking wait is a new obligation.
-//   (3) no sleep / timer wait / WaitGroup.Wait / Cond.Wait is reachable from the API or the
-//       consumers.
+//	(1) a consumer goroutine (the applier Cache.processItems, the policy's processItems) blocks on
+//	    nothing but its own select and the `done` answer of its stop arm - neither directly nor in
+//	    any module function it calls synchronously (callbacks bound to module closures included).
+//	    If it blocked on a channel that only itself serves (setBuf, stop/done of the same cache) or
+//	    on a timer, every producer that waits for it (Del, Wait, Clear, Push's consumer side) would
+//	    wait with it.
+//	(2) every blocking operation reachable from a listed API method is one of a frozen table of
+//	    (method, channel, direction) entries, and for each entry the counterpart operation exists in
+//	    the consumer's select (or in Clear's drain) - a new blocking wait is a new obligation.
+//	(3) no sleep / timer wait / WaitGroup.Wait / Cond.Wait is reachable from the API or the
+//	    consumers.
 //
 // Decides the shape only: liveness of the consumer (that it keeps running and is eventually
 // scheduled) is trusted.
